@@ -53,7 +53,9 @@ FileWhy(f) ==
 
 InspectWhy(e) ==
      UNION {FileWhy(e.files[i]) : i \in 1..Len(e.files)}
-  \cup (IF SeqSet(e.diffpaths) # SeqSet(e.changed) \cup {e.renames[i][1] : i \in 1..Len(e.renames)}
+  \* the paths named by the diff: the changed files, where they end up (a changed file can itself be renamed or lie
+  \* below a renamed directory: changedto, computed from the renames by path components), and the renames
+  \cup (IF SeqSet(e.diffpaths) # SeqSet(e.changed) \cup SeqSet(e.changedto) \cup {e.renames[i][1] : i \in 1..Len(e.renames)}
                                                \cup {e.renames[i][2] : i \in 1..Len(e.renames)}
         THEN {"FilesDisagree"} ELSE {})
   \cup (IF ~e.fssame THEN {"WroteBeforeApply"} ELSE {})
